@@ -87,7 +87,14 @@ where
     F: Float,
 {
     let this_in = !event.is_in_out();
-    let that_in = !event.is_other_in_out();
+    // `other_in_out` describes the other operand *below* a coincident pair, `this_in` the own
+    // operand *above* it. For a shared edge the other operand changes across the edge as well,
+    // so its state above follows from the edge type.
+    let that_in = match event.get_edge_type() {
+        EdgeType::SameTransition => this_in,
+        EdgeType::DifferentTransition => !this_in,
+        _ => !event.is_other_in_out(),
+    };
     let is_in = match operation {
         Operation::Intersection => this_in && that_in,
         Operation::Union => this_in || that_in,
